@@ -744,6 +744,14 @@ impl<'a> Session<'a> {
         u
     }
 
+    /// a world UTxO as the caller hands it to an `add_*_utxo` entry point: built through the API, or
+    /// (alt_values) decoded from another producer's CBOR
+    fn utxo_as_handed_over(&self, u: usize, idx: usize) -> csl::TransactionUnspentOutput {
+        let plain = self.w.utxo(u);
+        let decoded = self.alt_utxo_encoding(&plain.to_bytes(), 1000 + idx).and_then(|b| csl::TransactionUnspentOutput::from_bytes(b).ok());
+        decoded.unwrap_or(plain)
+    }
+
     fn alt_utxo_encoding(&self, b: &[u8], pos: usize) -> Option<Vec<u8>> {
         if self.sc.alt_values == 0 {
             return None;
@@ -900,7 +908,7 @@ impl<'a> Session<'a> {
         match op {
             Op::InUtxo(u) => {
                 need!(self.utxo_ok(*u));
-                let utxo = self.w.utxo(*u);
+                let utxo = self.utxo_as_handed_over(*u, idx);
                 let inb = &mut self.inb;
                 g!(inb.add_regular_utxo(&utxo));
                 self.tx.set_inputs(&self.inb);
@@ -935,7 +943,7 @@ impl<'a> Session<'a> {
                 let ut = &self.w.utxos[*utxo];
                 let input = self.w.input_of(ut);
                 let val = self.w.value(ut.coin, &ut.assets);
-                let full = self.w.utxo(*utxo);
+                let full = self.utxo_as_handed_over(*utxo, idx);
                 let outpoint = self.w.outpoint(*utxo);
                 if self.is_plutus(wit) {
                     let pw = match self.plutus_witness(&csl::RedeemerTag::new_spend(), wit) {
@@ -985,7 +993,7 @@ impl<'a> Session<'a> {
                 };
                 let input = self.w.input_of(ut);
                 let val = self.w.value(ut.coin, &ut.assets);
-                let full = self.w.utxo(*utxo);
+                let full = self.utxo_as_handed_over(*utxo, idx);
                 let outpoint = self.w.outpoint(*utxo);
                 self.inb.add_plutus_script_input(&pw, &input, &val);
                 // the mistaken attachment is replaced at once: it is never live
@@ -1022,7 +1030,7 @@ impl<'a> Session<'a> {
             }
             Op::CollUtxo(u) => {
                 need!(self.utxo_ok(*u));
-                let utxo = self.w.utxo(*u);
+                let utxo = self.utxo_as_handed_over(*u, idx);
                 let colb = &mut self.colb;
                 g!(colb.add_regular_utxo(&utxo));
                 self.tx.set_collateral(&self.colb);
